@@ -373,8 +373,20 @@ Definition hyps (fs : fsor) (cur des : list entry) : bool :=
                                             negb (exists_as fs p) && negb (is_overname p))) des) des.
 
 (* the property's conclusion on an observed change list; des_expect = the desired entries that must be present *)
-Definition step_ok (cur des des_expect : list entry) (chs : list change) : bool :=
+(* no entry is kept while an entry whose directory properly contains its directory is unmounted in the same update
+   (the kept mount would go away with its parent and never come back). strict = false exempts the pairs where exactly
+   one of the two is an overname entry (KNOWN_FINDINGS key keep-beneath-unmounted-overname). Stated for current
+   profiles without two entries on one sort key. *)
+Definition sort_key (e : entry) : bytes := with_slash (e_dir e).
+Definition no_keep_beneath_unmounted (strict : bool) (cur : list entry) (chs : list change) : bool :=
+  negb (distinct_b (map sort_key cur)) ||
+  forallb (fun k => forallb (fun u => negb (beneath k u && negb (beq (sort_key k) (sort_key u)) &&
+                                           (strict || Bool.eqb (is_overname k) (is_overname u))))
+                            (unmounts_of chs)) (keeps_of chs).
+
+Definition step_ok (strict : bool) (cur des des_expect : list entry) (chs : list change) : bool :=
   let ids := map x_entry_id des in
+  no_keep_beneath_unmounted strict cur chs &&
   (* applying the changes to the current table works and yields the desired entries plus helpers *)
   match apply_changes cur chs with
   | None => false
@@ -402,12 +414,13 @@ Definition monitor_fail (c : case) : bool :=
   | CStep fs current ages desired _ chs _ _ =>
       let cur := map clean_entry current in
       let des := map clean_entry desired in
-      hyps fs cur des && negb (step_ok cur des des chs)
+      hyps fs cur des && negb (step_ok true cur des des chs)
   end.
 
-(* the same with the shadowed desired entries that are in fact absent taken out of what must be present: a case that
-   fails this fails for a reason other than the recorded shadowing. Folded into the correspondence verdict so that
-   the known-finding key cannot hide it. *)
+(* the same with the two recorded classes taken out: shadowed desired entries that are in fact absent need not be
+   present, and a kept entry may lie beneath an unmounted one across the overname boundary. A case that fails this
+   fails for a reason other than the recorded findings; folded into the correspondence verdict so that the
+   known-finding keys cannot hide it. Evaluated only where the full monitor fails. *)
 Definition relaxed_fail (c : case) : bool :=
   match c with
   | CStep fs current ages desired _ chs _ _ =>
@@ -416,7 +429,7 @@ Definition relaxed_fail (c : case) : bool :=
       let ids := map x_entry_id des in
       let present := keeps_of chs ++ mounts_of chs in
       let expect := filter (fun d => negb (shadowed ids cur d && negb (existsb (entry_eqb d) present))) des in
-      existsb (shadowed ids cur) des && hyps fs cur des && negb (step_ok cur des expect chs)
+      monitor_fail c && negb (step_ok false cur des expect chs)
   end.
 
 Definition mismatch (c : case) : bool := tie_mismatch c || relaxed_fail c.
